@@ -183,7 +183,7 @@ class World:
         self.vc = None
         for fn in sorted(os.listdir(self.dir)):
             if fn.endswith('.vc'):
-                self.vc = parse_vc(os.path.join(self.dir, fn), self.vc)
+                self.vc = parse_vc(os.path.join(self.dir, fn), self.vc, self.features)
         self.counters = {k: 0 for k in ['R1', 'R2', 'R3', 'R4', 'R5', 'R6', 'R7', 'A1', 'A2', 'A3', 'A4']}
         self.fnmap = []       # per emitted fn: dict
         self.uncontracted = []
@@ -207,7 +207,7 @@ class World:
 
     def build(self, reach=False):
         mods = self.modules()
-        files = sorted({os.path.join(REPO, m['file']) for m in mods})
+        files = sorted({os.path.join(REPO, m['file']) for m in mods if 'file' in m})
         missing = [f for f in files if not os.path.exists(f)]
         if missing:
             raise Inconclusive(f'lost anchor: source file(s) missing: {missing}')
@@ -224,6 +224,10 @@ class World:
         out.w('use vstd::prelude::*;\n')
         out.w(open(os.path.join(VERIF, 'shim', 'macros.rs')).read())
         for sh in self.cfg['shim']:
+            if isinstance(sh, dict):
+                if sh.get('feature') and sh['feature'] not in self.features:
+                    continue
+                sh = sh['name']
             p = os.path.join(VERIF, 'shim', sh + '.rs')
             out.w(f'\n// ---- shim: {sh} ----\npub mod {sh.split("/")[-1]} {{\n')
             out.w(open(p).read())
@@ -232,6 +236,12 @@ class World:
             out.w(f'\n// ---- spec: {sp["mod"]} ----\npub mod {sp["mod"]} {{\n')
             out.w(self.cfg.get('spec_prelude', 'use vstd::prelude::*;\n'))
             for f in sp['files']:
+                if isinstance(f, dict):
+                    if f.get('feature') and f['feature'] not in self.features:
+                        continue
+                    if f.get('not_feature') and f['not_feature'] in self.features:
+                        continue
+                    f = f['file']
                 out.w(f'// file {f}\n')
                 out.w(open(os.path.join(self.dir, f)).read())
                 out.w('\n')
@@ -259,6 +269,8 @@ class World:
         self.emitted = {}
         self.raw_mods = {r[0] for r in self.vc.raws}
         for m in mods:
+            if 'file' not in m:
+                continue
             path = os.path.join(REPO, m['file'])
             names = self.emitted.setdefault(m['mod'], set())
             for it in self.index[path]['items']:
@@ -289,7 +301,7 @@ class World:
             return True
         top = {m['mod'].split('::')[0] for m in self.modules()}
         if segs[0] not in top:
-            known = {x.split('/')[-1] for x in self.cfg['shim']} | {x['mod'] for x in self.cfg.get('spec', [])}
+            known = {(x['name'] if isinstance(x, dict) else x).split('/')[-1] for x in self.cfg['shim']} | {x['mod'] for x in self.cfg.get('spec', [])}
             return segs[0] in known   # shim / spec module: let rustc judge; unknown module: drop
         # find the longest module prefix
         for i in range(len(segs), 0, -1):
@@ -324,12 +336,19 @@ class World:
 
     # ------------------------------------------------------------------ one module
     def _emit_module(self, out, m, reach):
+        if 'shim' in m:
+            out.w(f'// ---- shim module: {m["shim"]} ----\n')
+            out.w(open(os.path.join(VERIF, 'shim', m['shim'] + '.rs')).read())
+            out.w('\n')
+            return
         path = os.path.join(REPO, m['file'])
         src = open(path, 'rb').read()
         items = self.index[path]['items']
         mod = m['mod']
         out.w(f'// ---- extracted: {m["file"]} ----\n')
         out.w(self.cfg.get('prelude', ''))
+        for feat in sorted(self.features):
+            out.w(self.cfg.get('prelude_' + feat, ''))
         out.w('\n')
         # use lines (R1)
         for it in items:
@@ -341,6 +360,21 @@ class World:
         for rmod, text, origin in self.vc.raws:
             if rmod == mod:
                 out.w(f'\n// raw from {os.path.relpath(origin, VERIF)}\n{text}\n')
+        for pf in self.vc.protofields:
+            if pf['mod'] != mod:
+                continue
+            st = next((i for i in items if i['kind'] == 'struct' and i['name'] == pf['name']), None)
+            if st is None:
+                raise Inconclusive(f'lost anchor: struct {pf["name"]} not found in {m["file"]}')
+            have = {f['name']: [a for a in f['attrs'] if a['path'] == 'prost'] for f in st['fields']['fields']}
+            if set(have) != set(pf['fields']):
+                raise Inconclusive(f'lost anchor: fields of {pf["name"]} are {sorted(have)}, contract lists {sorted(pf["fields"])}')
+            for fname, want in pf['fields'].items():
+                got = re.sub(r'\s+', ' ', have[fname][0]['text']) if have[fname] else ''
+                got = re.sub(r'^#\[prost\((.*)\)\]$', r'\1', got)
+                out.w(f'\n// [{pf["prop"]}.field-{pf["name"]}.{fname}]\n'
+                      f'pub proof fn prost_attr_{pf["name"]}_{fname}()\n    ensures {rust_str(got)}@ == {rust_str(want)}@\n'
+                      f'{{ reveal_strlit({rust_str(got)}); reveal_strlit({rust_str(want)}); }}\n')
         out.w('} // verus!\n')
 
     def _in_inline_mod(self, it, items):
@@ -401,6 +435,8 @@ class World:
                 continue
             k = it['kind']
             if k == 'mod':
+                if m.get('only') is not None and it.get('name') not in m['only']:
+                    continue
                 if it.get('inline') and not it.get('test') and self._parent(it['path']) == inline_prefix:
                     out.w(f'\n}} // verus!\npub mod {it["name"]} {{\n')
                     out.w(self.cfg.get('prelude', ''))
@@ -413,6 +449,8 @@ class World:
                     out.w(f'}} // verus!\n}} // mod {it["name"]}\nverus! {{\n')
                 continue
             if owner(it) != inline_prefix:
+                continue
+            if m.get('only') is not None and it.get('name') not in m['only']:
                 continue
             modpath = mod + ('::' + inline_prefix if inline_prefix else '')
             if k in ('struct', 'enum'):
@@ -463,7 +501,11 @@ class World:
                 field_edits(v['fields'], v['name'])
         self.counters['R1'] += len(it['attrs'])
         body = apply_edits(src, it['start_no_attrs'], it['span'][1], edits).decode()
-        # type substitutions requested by the contract file (R6 style path fixes)
+        # R6: prost re-exports of alloc are the std types
+        n6 = body.count('::prost::alloc::')
+        if n6:
+            body = body.replace('::prost::alloc::', '::std::')
+            self.counters['R6'] += n6
         name = it['name']
         derives = ['#[derive(Debug)]']
         if 'structural' in optset:
@@ -482,6 +524,8 @@ class World:
                     f'    open spec fn eq_spec(&self, o: &{name}) -> bool {{ *self == *o }}\n}}\n'
                     f'impl PartialEq for {name} {{\n    #[verifier::external_body]\n'
                     f'    fn eq(&self, o: &{name}) -> (r: bool) ensures r == (*self == *o) {{ unimplemented!() }}\n}}\n')
+        if 'prostmsg' in optset:
+            gen += f'impl crate::prost::Message for {name} {{}}\n'
         if 'serialize' in optset:
             gen += f'impl crate::serde::Serialize for {name} {{}}\n'
         for variant, ty in from_variants:
